@@ -281,6 +281,29 @@ Qed.
 
 Definition noF (c : cfg) : Prop := forall q, pg_flag (getp c q) <> Freeing.
 
+(* no step of a frame puts a page into the full queue (only the operation OpToFull does): a page that is not in the
+   full queue (or has been freed: pg0) stays out of it during any run of frames *)
+Ltac full_step H :=
+  repeat match type of H with
+         | context [if ?b then _ else _] => destruct b eqn:?
+         | context [match ?x with _ => _ end] => destruct x eqn:?
+         end;
+  try discriminate H; unfold ok_s, ok_t in H; inversion H; subst; clear H.
+Lemma cstep_go_full c t c' ev : cstep c t CGo = ROk c' ev ->
+  forall q, pg_full (getp c q) = false -> pg_full (getp c' q) = false.
+Proof.
+  intros H q Hq. unfold cstep in H. destruct (th_stk (gett c t)) as [|fr rest]; [discriminate|].
+  destruct fr; cbn [fstep] in H; unfold free_local in H; full_step H;
+    rewrite ?getp_sett, ?getp_setp, ?getp_seth, ?getp_sett;
+    try exact Hq;
+    match goal with
+    | |- context [q =? ?x] => destruct (q =? x) eqn:Eq; [apply N.eqb_eq in Eq; subst q|exact Hq]
+    end; cbn; try exact Hq; try reflexivity.
+Qed.
+
+Lemma sreach_full t c c' : sreach t c c' -> forall q, pg_full (getp c q) = false -> pg_full (getp c' q) = false.
+Proof. induction 1; [auto|]. intros q Hq. apply IHsreach. eapply cstep_go_full; eassumption. Qed.
+
 (* _mi_page_free run alone *)
 Lemma run_PF t c p rest :
   Inv c -> th_stk (gett c t) = PF p :: rest ->
@@ -316,7 +339,9 @@ Proof. intros [A1 A2] [B1 B2]. split; [eapply keep_trans; eassumption|intros h; 
 (* one delayed block: _mi_free_delayed_block *)
 Lemma run_block t c h b r af rest :
   Inv c -> noF c -> th_stk (gett c t) = DP3 h (b :: r) af :: rest ->
-  exists c', sreach t c c' /\ th_stk (gett c' t) = DP3 h r af :: rest /\ keepd t c c'.
+  exists c', sreach t c c' /\ th_stk (gett c' t) = DP3 h r af :: rest /\ keepd t c c'
+             /\ pg_full (getp c' (fst b)) = false        (* the page is back in its size queue (or has been freed) *)
+             /\ pg_tf (getp c' (fst b)) = [].            (* and its thread-free list has been collected *)
 Proof.
   intros I HnF E. set (p := fst b).
   destruct (stack_facts c t _ _ I E) as (S1 & S2 & S3 & S4).
@@ -346,25 +371,27 @@ Proof.
   { eapply sr_step; [exact C1|]. eapply sreach_trans; [exact R2|]. eapply sr_step; [exact C3|exact R4]. }
   (* the outcomes of free_local *)
   assert (Hfin : forall pg' nf, pview pg' = pview (getp c4 p) -> pg_tf pg' = pg_tf (getp c4 p) -> pg_flag pg' = pg_flag (getp c4 p) ->
-            (nf = [] \/ nf = [PF p]) ->
+            ((nf = [] /\ pg_full pg' = false) \/ nf = [PF p]) ->
             cstep c4 t CGo = ok_s (setp c4 p pg') t (gett c4 t) (nf ++ DP3 h r af :: rest) None ->
-            exists c', sreach t c c' /\ th_stk (gett c' t) = DP3 h r af :: rest /\ keepd t c c').
+            exists c', sreach t c c' /\ th_stk (gett c' t) = DP3 h r af :: rest /\ keepd t c c' /\ pg_full (getp c' p) = false
+                       /\ pg_tf (getp c' p) = []).
   { intros pg' nf V1 V2 V3 Hnf C. unfold ok_s, ok_t in C.
     set (c5 := sett (setp c4 p pg') t (th_set (gett c4 t) (nf ++ DP3 h r af :: rest) (th_ret (gett c4 t)))) in *.
     assert (K5 : keepd t c4 c5) by (split; [apply keep_priv; assumption|reflexivity]).
     assert (E5 : th_stk (gett c5 t) = nf ++ DP3 h r af :: rest) by (unfold c5; rewrite gett_sett, N.eqb_refl; reflexivity).
-    destruct Hnf as [-> | ->].
+    destruct Hnf as [[-> Hfull] | ->].
     - exists c5. split; [eapply sreach_trans; [exact R14|eapply sreach_one; exact C]|]. split; [exact E5|].
-      eapply keepd_trans; eassumption.
+      split; [eapply keepd_trans; eassumption|]. unfold c5. rewrite getp_sett, getp_setp, N.eqb_refl. split; [exact Hfull|congruence].
     - assert (I5 : Inv c5) by (pose proof (cstep_good c4 t CGo I4) as G; rewrite C in G; exact G).
-      destruct (run_PF t c5 p _ I5 E5) as (c6 & R6 & E6 & _ & K6 & [_ H6] & _).
+      destruct (run_PF t c5 p _ I5 E5) as (c6 & R6 & E6 & _ & K6 & [_ H6] & D6).
       exists c6. split; [eapply sreach_trans; [exact R14|eapply sr_step; [exact C|exact R6]]|]. split; [exact E6|].
-      eapply keepd_trans; [exact K14|]. eapply keepd_trans; [exact K5|]. split; assumption. }
+      split; [eapply keepd_trans; [exact K14|]; eapply keepd_trans; [exact K5|]; split; assumption|].
+      rewrite (s_dead _ (i_S _ (sreach_Inv t c5 c6 R6 I5)) p D6). split; reflexivity. }
   set (pg1 := pg_set_lists (getp c4 p) (pg_free (getp c4 p)) (b :: pg_lfree (getp c4 p)) (sub16 (pg_used (getp c4 p)) 1)) in *.
   destruct (sub16 (pg_used (getp c4 p)) 1 =? 0).
   - destruct (false && negb (pg_full (getp c4 p))) eqn:Ek; [discriminate|].
     apply (Hfin pg1 [PF p]); auto.
-  - destruct (pg_full (getp c4 p)).
+  - destruct (pg_full (getp c4 p)) eqn:Efull.
     + apply (Hfin (pg_set_full pg1 false) []); auto.
     + apply (Hfin pg1 []); auto.
 Qed.
@@ -375,16 +402,18 @@ Proof. intros [K _] H q. apply (k_nf _ _ _ K H q). Qed.
 (* the loop of _mi_heap_delayed_free_partial over the taken-over list *)
 Lemma run_DPloop t h af rest : forall pend c,
   Inv c -> noF c -> th_stk (gett c t) = DP3 h pend af :: rest ->
-  exists c', sreach t c c' /\ th_stk (gett c' t) = rest /\ th_ret (gett c' t) = af /\ keepd t c c'.
+  exists c', sreach t c c' /\ th_stk (gett c' t) = rest /\ th_ret (gett c' t) = af /\ keepd t c c'
+             /\ (forall b, In b pend -> pg_full (getp c' (fst b)) = false /\ pg_tf (getp c' (fst b)) = []).
 Proof.
   induction pend as [|b r IH]; intros c I HnF E.
   - pose proof (cstep_frame c t _ _ E) as C1. cbn [fstep] in C1. unfold ok_t in C1.
     eexists. split; [eapply sreach_one; exact C1|]. rewrite !gett_sett, !N.eqb_refl; cbn [th_stk th_ret th_set].
-    split; [reflexivity|]. split; [reflexivity|]. split; [apply keep_sett|reflexivity].
-  - destruct (run_block t c h b r af rest I HnF E) as (c1 & R1 & E1 & K1).
-    destruct (IH c1 (sreach_Inv t c c1 R1 I) (keepd_noF t c c1 K1 HnF) E1) as (c2 & R2 & E2 & Rt2 & K2).
+    split; [reflexivity|]. split; [reflexivity|]. split; [split; [apply keep_sett|reflexivity]|intros b []].
+  - destruct (run_block t c h b r af rest I HnF E) as (c1 & R1 & E1 & K1 & F1 & T1).
+    destruct (IH c1 (sreach_Inv t c c1 R1 I) (keepd_noF t c c1 K1 HnF) E1) as (c2 & R2 & E2 & Rt2 & K2 & F2).
     exists c2. split; [eapply sreach_trans; eassumption|]. split; [exact E2|]. split; [exact Rt2|].
-    eapply keepd_trans; eassumption.
+    split; [eapply keepd_trans; eassumption|].
+    intros b' [<-|Hb']; [split; [apply (sreach_full t c1 c2 R2); exact F1|apply (k_tf _ _ _ (proj1 K2)); exact T1]|apply F2; exact Hb'].
 Qed.
 
 (* keep, but the delayed list of h may have been emptied *)
@@ -394,7 +423,8 @@ Definition keeph (t h : N) (c c' : cfg) : Prop :=
 (* _mi_heap_delayed_free_partial run alone: returns true and leaves the list empty *)
 Lemma run_partial t c h rest :
   Inv c -> noF c -> th_stk (gett c t) = DP1 h :: rest ->
-  exists c', sreach t c c' /\ th_stk (gett c' t) = rest /\ th_ret (gett c' t) = true /\ keeph t h c c'.
+  exists c', sreach t c c' /\ th_stk (gett c' t) = rest /\ th_ret (gett c' t) = true /\ keeph t h c c'
+             /\ (forall b, In b (hp_del (geth c h)) -> pg_full (getp c' (fst b)) = false /\ pg_tf (getp c' (fst b)) = []).
 Proof.
   intros I HnF E.
   destruct (stack_facts c t _ _ I E) as (S1 & S2 & S3 & S4).
@@ -402,7 +432,7 @@ Proof.
   pose proof (cstep_frame c t _ _ E) as C1. cbn [fstep] in C1. rewrite Hal in C1. cbn [negb] in C1.
   destruct (hp_del (geth c h)) as [|b0 l0] eqn:Ed.
   - unfold ok_t in C1. eexists. split; [eapply sreach_one; exact C1|]. rewrite !gett_sett, !N.eqb_refl; cbn [th_stk th_ret th_set].
-    split; [reflexivity|]. split; [reflexivity|]. split; [apply keep_sett|]. split; [reflexivity|exact Ed].
+    split; [reflexivity|]. split; [reflexivity|]. split; [split; [apply keep_sett|split; [reflexivity|exact Ed]]|intros b []].
   - unfold ok_s, ok_t in C1.
     set (c1 := sett c t (th_set (gett c t) (DP2 h (Some b0) :: rest) (th_ret (gett c t)))) in *.
     assert (I1 : Inv c1) by (pose proof (cstep_good c t CGo I) as G; rewrite C1 in G; exact G).
@@ -424,9 +454,9 @@ Proof.
       - intros h' Hh'. unfold c2. rewrite geth_sett, geth_seth. apply N.eqb_neq in Hh'. rewrite Hh'. reflexivity.
       - unfold c2. rewrite geth_sett, geth_seth, N.eqb_refl. reflexivity. }
     assert (HnF2 : noF c2) by (intros q; apply HnF).
-    destruct (run_DPloop t h true rest (b0 :: l0) c2 I2 HnF2 E2) as (c3 & R3 & E3 & Rt3 & [K3 H3]).
+    destruct (run_DPloop t h true rest (b0 :: l0) c2 I2 HnF2 E2) as (c3 & R3 & E3 & Rt3 & [K3 H3] & F3).
     exists c3. split; [eapply sr_step; [exact C1|eapply sr_step; [exact C2|exact R3]]|]. split; [exact E3|]. split; [exact Rt3|].
-    destruct K2 as (K2a & K2b & K2c). split; [eapply keep_trans; eassumption|]. split.
+    destruct K2 as (K2a & K2b & K2c). split; [split; [eapply keep_trans; eassumption|split]|exact F3].
     + intros h' Hh'. rewrite H3. apply K2b. assumption.
     + rewrite H3. exact K2c.
 Qed.
@@ -434,15 +464,17 @@ Qed.
 (* _mi_heap_delayed_free_all run alone *)
 Lemma run_DA t c h rest :
   Inv c -> noF c -> th_stk (gett c t) = DP1 h :: DA h :: rest ->
-  exists c', sreach t c c' /\ th_stk (gett c' t) = rest /\ keeph t h c c'.
+  exists c', sreach t c c' /\ th_stk (gett c' t) = rest /\ keeph t h c c'
+             /\ (forall b, In b (hp_del (geth c h)) -> pg_full (getp c' (fst b)) = false /\ pg_tf (getp c' (fst b)) = []).
 Proof.
   intros I HnF E.
-  destruct (run_partial t c h _ I HnF E) as (c1 & R1 & E1 & Rt1 & K1).
+  destruct (run_partial t c h _ I HnF E) as (c1 & R1 & E1 & Rt1 & K1 & F1).
   assert (I1 : Inv c1) by (apply (sreach_Inv t c); assumption).
   pose proof (cstep_frame c1 t _ _ E1) as C2. cbn [fstep] in C2. rewrite Rt1 in C2. unfold ok_s, ok_t in C2.
   eexists. split; [eapply sreach_trans; [exact R1|eapply sreach_one; exact C2]|].
   rewrite gett_sett, N.eqb_refl. cbn [th_stk th_set]. split; [reflexivity|].
-  destruct K1 as (Ka & Kb & Kc). split; [eapply keep_trans; [exact Ka|apply keep_sett]|]. split; [exact Kb|exact Kc].
+  destruct K1 as (Ka & Kb & Kc). split; [split; [eapply keep_trans; [exact Ka|apply keep_sett]|split; [exact Kb|exact Kc]]|].
+  intros b Hb. rewrite getp_sett. apply F1. exact Hb.
 Qed.
 
 (* a page of heap h that is (still) there has been collected and is not empty *)
@@ -570,7 +602,7 @@ Proof.
   assert (E1 : th_stk (gett c1 t) = [DP1 h; DA h; HC2 h true]) by (unfold c1; rewrite gett_sett, N.eqb_refl; reflexivity).
   assert (K1 : keep t c c1) by apply keep_sett.
   (* drain *)
-  destruct (run_DA t c1 h _ I1 (fun q => HnF q) E1) as (c2 & R2 & E2 & K2 & H2 & D2).
+  destruct (run_DA t c1 h _ I1 (fun q => HnF q) E1) as (c2 & R2 & E2 & (K2 & H2 & D2) & _).
   assert (I2 : Inv c2) by (apply (sreach_Inv t c1); assumption).
   (* HC2: snapshot of the pages *)
   pose proof (cstep_frame c2 t _ _ E2) as C3. cbn [fstep] in C3. unfold ok_s, ok_t in C3.
